@@ -35,7 +35,10 @@ def menus(tier):
                            "max": [(0.15,), (1.5,), (2.5,), (1.49,), (1.51,)],
                            "precision": [(1,), (2,)] + ([(15,), (0,)] if T else [])},
                   "values": [None, 1.5, 0.2, 1.46]},
-        "str": {"refs": {"len": str_len, "alphabet": [("",), ("a",), ("ab",)],
+        # "len2" is a SECOND application of len (another form): re-declaring a length is rejected
+        # whichever of the two forms comes first
+        "str": {"refs": {"len": str_len, "len2": [(0,), (2,), (0, E), (E, 0), (E, 3)],
+                         "alphabet": [("",), ("a",), ("ab",)],
                          "contains": [("",), ("a",), ("ab",), ("c",)],
                          "regex": [("a",), ("[ab]+",), ("^a.$",), ("a{2}",), ("*",),
                                    ("a{99999999999999999999}",)]},
@@ -45,7 +48,7 @@ def menus(tier):
                                 "alphabet": [("ab",)], "contains": [("a",), ("",)],
                                 "regex": [("a",)]},
                        "values": [None, "a", "abc"]},
-        "list": {"refs": {"len": lst_len},
+        "list": {"refs": {"len": lst_len, "len2": [(0,), (2,), (0, E), (E, 0), (E, 3), (1, 2)]},
                  "values": [None, e1.Sch(INT), [], [I1], [I1, SA], [I1, E], [E, I1], [E, I1, E], [E]]},
     }
 
@@ -75,7 +78,7 @@ def outcome(kind, value, order, wpos=None):
         for j, (method, args) in enumerate(order):
             if j == wpos:
                 terms.warm(s)       # the partial declaration is used (==, repr, ...) before refining
-            s = getattr(s, method)(*args)
+            s = getattr(s, "len" if method == "len2" else method)(*args)
     except DeclarationError:
         return "rejected", None
     except Exception as e:  # noqa: BLE001
@@ -86,7 +89,7 @@ def outcome(kind, value, order, wpos=None):
 def describe(refs):
     out = []
     for m, a in refs:
-        if m == "len":
+        if m in ("len", "len2"):
             form = "len(n)" if len(a) == 1 else ("len(n,...)" if a[1] is E else
                                                  ("len(...,n)" if a[0] is E else "len(a,b)"))
             out.append(form)
